@@ -109,7 +109,7 @@ def partition_shape_prover(ctx, p, cfg):
     def calls_in(cls):
         out = []
         for k in cls:
-            g = p.funcs[k]
+            g = p.fn(k)     # private helpers called from the closure are spliced in
             out += [(g, bi, t) for bi, t in g.calls() if not g.is_cleanup(bi)]
         return out
     eq_calls, ne_calls = calls_in(eqc), calls_in(nec)
